@@ -57,6 +57,10 @@ def is_nonlinear(t, _memo=None):
     return r
 
 
+FEAS_RLIMIT = 20000000     # z3 resource units per feasibility query: deterministic, independent of machine load
+FEAS_TIMEOUT_MS = 30000     # wall-clock backstop only
+
+
 class PathAbort(Exception):
     """The current path is infeasible (or was cut by assume)."""
 
@@ -346,9 +350,13 @@ class Engine(object):
             self.nl = []
             self.inputs = {}
             self.solver = z3.Solver()
-            self.solver.set('timeout', 2000)
             self.solver_full = z3.Solver()
-            self.solver_full.set('timeout', 2000)
+            for sv in (self.solver, self.solver_full):
+                # a resource limit (deterministic, independent of machine load) bounds each feasibility query; the
+                # wall-clock limit is only a backstop
+                sv.set('timeout', FEAS_TIMEOUT_MS)
+                if FEAS_RLIMIT:
+                    sv.set('rlimit', FEAS_RLIMIT)
             self.call_depth = 0
             self._fresh_path = {}
             n += 1
@@ -468,7 +476,11 @@ class Engine(object):
             return cond
         t0 = time.time()
         s = z3.Solver(); s.set('timeout', timeout); s.add(*self.pc); s.add(z3.Not(cond))
-        r = s.check() == z3.unsat
+        res = s.check()
+        r = res == z3.unsat
+        if res == z3.unknown:
+            # "not proved" is not "refuted": the next obligation recorded as failing is undecided instead
+            self.aux_unknown = 'solver gave up on a clause (%s)' % s.reason_unknown()
         dt = time.time() - t0
         self.aux_seconds = getattr(self, 'aux_seconds', 0.0) + dt
         self.aux_queries = getattr(self, 'aux_queries', 0) + 1
@@ -479,17 +491,22 @@ class Engine(object):
         ob.seconds += getattr(self, 'aux_seconds', 0.0)
         ob.queries += getattr(self, 'aux_queries', 0)
         self.aux_seconds, self.aux_queries = 0.0, 0
+        gave_up, self.aux_unknown = getattr(self, 'aux_unknown', None), None
+        return gave_up
 
     def prove(self, cond, name, detail=''):
         """Obligation: on the current path, cond holds.  cond may be bool or z3 Bool."""
         ob = self.obligation(name)
         ob.paths += 1
-        self._charge_aux(ob)
+        gave_up = self._charge_aux(ob)
         if is_z3(cond):
             cond = concretize(cond)
         if cond is True:
             ob.merge('discharged')
             return True
+        if cond is False and gave_up:
+            ob.merge('undecided', gave_up)
+            return False
         t0 = time.time()
         neg = z3.BoolVal(True) if cond is False else z3.Not(cond)
         s = z3.Solver()
@@ -528,11 +545,25 @@ class Engine(object):
     def fail(self, name, why, model=None):
         ob = self.obligation(name)
         ob.paths += 1
-        self._charge_aux(ob)
+        gave_up = self._charge_aux(ob)
+        if gave_up:
+            ob.merge('undecided', '%s: %s' % (gave_up, why))
+            return
         if model is None:
+            # the clause fails on this path only if some input reaches the path: an infeasible path proves nothing wrong,
+            # and a path condition the solver cannot decide (time limit under load) leaves the obligation undecided
             s = z3.Solver(); s.set('timeout', self.timeout_ms); s.add(*self.pc)
-            if s.check() == z3.sat:
+            t0 = time.time()
+            r = s.check()
+            self.solver_seconds += time.time() - t0
+            if r == z3.sat:
                 model = self.model_inputs(s.model())
+            elif r == z3.unsat:
+                ob.merge('discharged')
+                return
+            else:
+                ob.merge('undecided', 'path condition not decided by the solver (%s): %s' % (s.reason_unknown(), why))
+                return
         ob.merge('failed', why, model)
 
     def cvc5_check(self, solver):
